@@ -183,6 +183,7 @@ def stage_wsdl(p, full_matrix=True, restr=False, static_only=False):
         L.append(f"    emit(format!(\"{{{{\\\"ev\\\":\\\"begin\\\",\\\"id\\\":\\\"{opid}\\\",\\\"side\\\":\\\"g\\\"}}}}\"));")
         L.append(f"    {{ let svc = g::{svc_name}::new(None); let req = {req_lit}; let fut = svc.{method}(req); assert_send(&fut); drop(fut); }} /*SEND:{opid}:method*/")
         L.append(f"    assert_send_sync::<g::{req_ty}>(); /*SEND:{opid}:request-envelope*/")
+        L.append(f"    assert_send_sync::<g::multi_ref::MultiRef<g::{req_ty}>>(); /*SEND:{opid}:helper-multiref*/")
         if two_way:
             L.append(f"    assert_send_sync::<g::{resp_ty}>(); /*SEND:{opid}:response-envelope*/")
         ff = free_fns.get(op.name.snake)
